@@ -26,6 +26,7 @@ import (
 	"github.com/99designs/gqlgen/graphql/handler/extension"
 	"github.com/99designs/gqlgen/graphql/handler/lru"
 	"github.com/99designs/gqlgen/graphql/handler/transport"
+	"github.com/gorilla/websocket"
 	"github.com/vektah/gqlparser/v2/ast"
 
 	"verif/internal/sjson"
@@ -38,7 +39,8 @@ func newServer(l limitCfg) *handler.Server {
 	// SSE and multipart/mixed first, otherwise POST shadows them
 	srv.AddTransport(transport.SSE{})
 	srv.AddTransport(transport.MultipartMixed{})
-	srv.AddTransport(transport.Websocket{})
+	// the application's upgrader also negotiates a subprotocol of its own that gqlgen does not speak
+	srv.AddTransport(transport.Websocket{Upgrader: websocket.Upgrader{Subprotocols: []string{"verif-foreign"}}})
 	srv.AddTransport(transport.Options{})
 	srv.AddTransport(transport.GET{})
 	srv.AddTransport(transport.POST{})
